@@ -37,7 +37,7 @@ Conv(J) ==
        cores |-> J.cores, smt |-> J.smt, known |-> J.known, gpn |-> J.gpn, gpusrc |-> J.gpusrc,
        bc |-> SeqSet(J.bc), bg |-> SeqSet(J.bg), requested |-> J.requested, slack |-> J.slack,
        backup |-> J.backup, agents |-> J.agents, service |-> J.service,
-       refused |-> SeqSet(J.refused), hangs |-> SeqSet(J.hangs)]
+       refused |-> SeqSet(J.refused), hangs |-> SeqSet(J.hangs), oldfiles |-> J.oldfiles]
 
 ToEntry(e)  == [name |-> e.name, index |-> e.index,
                 cores |-> [c \in 1 .. Len(e.cores) |-> e.cores[c]],
@@ -63,7 +63,8 @@ OfferErrs(p) ==
   \cup E(Reachable(p, in),  "C18.Reachable")
   \cup E(NotShorter(p, in), "C18.NotShorter")
   \* C17: the agent ends up with the number of nodes it was told, on reachable nodes
-  \cup E(Len(AllOf(p)) = Granted(in) /\ Reachable(p, in), "C17.AgentNodesAsTold")
+  \* with the cores per node it was told
+  \cup E(Len(AllOf(p)) = Granted(in) /\ Reachable(p, in) /\ Sized(p, in), "C17.AgentNodesAsTold")
   \cup E(~Uninterpretable(in), "C18.RefusesInconsistent")
   \cup E(~ExpectError(in),  "M18.OfferedDespiteShortage")
   \cup (IF ee THEN {}
